@@ -338,8 +338,9 @@ def history_sig(op):
     if op.get("op") == "vario_dirs":
         return "vario_dirs:%d:%d:%s:%s%s" % (op["dim"], len(op["angles_deg"]), op["tol_deg"],
                                             op.get("masked", ""), "L" if op.get("latlon") else
-                                            ("G" if op.get("grid") else ("F" if op.get("fourier")
-                                                                         else "")))
+                                            ("G" if op.get("grid") else ("F" if op.get("fourier") else
+                                                                         ("K" if op.get("krige")
+                                                                          else ""))))
     if op.get("op") == "wrapper":
         s = op["size"]
         return "wrapper:%s:%d:%d:%d:%s" % (op["kernel"], s["dim"], min(s["n"], 50) // 5,
@@ -402,6 +403,15 @@ class Machine:
             size["m"] = min(size["m"], 30 if KERNELS[kernel] == "estimator" else 200)
             return {"op": "ompbuild", "kernel": kernel, "size": size,
                     "vseed": rng.randint(0, 2 ** 31), "reps": rng.choice([2, 5, 10])}
+        if r > 0.985 and rng.random() < 0.25:
+            # public simple kriging against the textbook formulas (dense linear algebra)
+            dim = rng.choice([1, 2, 2, 3])
+            return {"op": "vario_dirs", "krige": True, "dim": dim, "n": rng.randint(1, 6),
+                    "ncond": rng.randint(2, 6), "cls": rng.choice(["Gaussian", "Exponential"]),
+                    "values": rng.choice(["random", "random", "all_mean", "all_zero"]),
+                    "mean": rng.choice([0.0, 1.5]), "chunk": rng.choice([None, 1, 2]),
+                    "vseed": rng.randint(0, 2 ** 31), "angles_deg": [], "tol_deg": 0,
+                    "est": "matheron"}
         if r > 0.985 and rng.random() < 0.3:
             # public Fourier generator (positions inside and outside one period, anisotropic
             # and rotated models) against the defining sum built from its public pieces
@@ -453,7 +463,10 @@ class Machine:
                                    for _ in range(rng.randint(1, 4))],
                     "tol_deg": rng.choice([5, 10, 20, 22.5, 40]),
                     "bw": rng.choice([None, None, 1.5]), "est": rng.choice(["matheron",
-                                                                            "cressie"])}
+                                                                            "cressie"]),
+                    # missing values marked by a number, together with a trend to remove
+                    "no_data": rng.choice([None, None, -999.0, 0.0]),
+                    "trend": rng.choice([None, 0.3])}
         if r < 0.6:
             return {"op": "run", "kernel": kernel, "size": self._size(rng, kernel),
                     "vseed": rng.randint(0, 2 ** 31), "team": rng.choice(TEAMS),
@@ -691,6 +704,39 @@ class Machine:
         if bad:
             raise Violation("C15.defining_sums." + name, maxdiff=maxdiff(got_v, ref[0]))
 
+    def _krige_public(self, op):
+        import gstools as gs
+        from scipy.spatial.distance import cdist
+        rs = random.Random(op["vseed"])
+        d = op["dim"]
+        model = getattr(gs, op["cls"])(dim=d, var=1.3, len_scale=1.7,
+                                       anis=[0.6] * (d - 1) or 1.0,
+                                       angles=[0.4] * (d * (d - 1) // 2) or 0.0)
+        nc = op["ncond"]
+        lattice = [(i, j, k) for i in range(4) for j in range(4) for k in range(3)]
+        cpos = np.array(rs.sample(lattice, nc), dtype=np.double).T[:d] * 1.3
+        if len({tuple(c) for c in cpos.T.tolist()}) != nc:
+            raise Inapplicable("coincident conditions")
+        mean = float(op["mean"])
+        cval = {"random": _vals(rs, (nc,), -1, 3), "all_mean": np.full(nc, mean),
+                "all_zero": np.zeros(nc)}[op["values"]]
+        pos = np.concatenate([_vals(rs, (d, op["n"]), -2, 6), cpos[:, :1]], axis=1)
+        kr = gs.krige.Simple(model, cpos.copy(), cval.copy(), mean=mean)
+        field, var = kr(pos.copy(), chunk_size=op.get("chunk"), store=False)
+        ci, pi = model.isometrize(cpos), model.isometrize(pos)
+        C = model.covariance(cdist(ci.T, ci.T))
+        k = model.covariance(cdist(ci.T, pi.T))
+        w = np.linalg.solve(C, k)
+        ref_f = mean + w.T @ (cval - mean)
+        ref_v = model.sill - np.sum(k * w, axis=0)
+        self.ctx.observations += 1
+        self.ctx.probe("wrapper.krige_public")
+        tol = 1e-9 * max(1.0, float(np.linalg.cond(C)))
+        if not close(field, ref_f, rtol=1e-9, atol=tol * 3) or \
+                not close(np.maximum(var, 0), np.maximum(ref_v, 0), rtol=1e-9, atol=tol * 3):
+            raise Violation("C15.defining_sums.krige_public", values=op["values"],
+                            maxdiff_field=maxdiff(field, ref_f), maxdiff_var=maxdiff(var, ref_v))
+
     def _fourier_public(self, op):
         import gstools as gs
         from gstools.random import RNG
@@ -724,6 +770,8 @@ class Machine:
         import gstools as gs
         if op.get("fourier"):
             return self._fourier_public(op)
+        if op.get("krige"):
+            return self._krige_public(op)
         if op.get("latlon"):
             return self._vario_latlon(op)
         if op.get("masked"):
@@ -750,8 +798,20 @@ class Machine:
             dirs /= np.linalg.norm(dirs, axis=1)[:, None]
         tol = np.pi / 2 if op["tol_deg"] == 90 else math.radians(op["tol_deg"])
         bw = op.get("bw")
-        res = gs.vario_estimate(pos, f[0], bin_edges=edges, direction=dirs, angles_tol=tol,
-                                bandwidth=bw, return_counts=True, estimator=_spell(op))
+        extra = {}
+        fin = f.copy()
+        if op.get("no_data") is not None and not op.get("grid"):
+            marker = float(op["no_data"])
+            miss = [i for i in range(n) if rs.random() < 0.25] or [0]
+            fin[0, miss] = marker
+            f[0, np.isclose(fin[0], marker)] = np.nan   # (incl. values equal to it by chance)
+            extra["no_data"] = marker
+        if op.get("trend") and not op.get("grid"):
+            c = float(op["trend"])
+            extra["trend"] = lambda *x: c * x[0]
+            f = f - c * pos[0]
+        res = gs.vario_estimate(pos, fin[0], bin_edges=edges, direction=dirs, angles_tol=tol,
+                                bandwidth=bw, return_counts=True, estimator=_spell(op), **extra)
         kw = {"angles_tol": tol, "bandwidth": -1.0 if bw is None else bw,
               "separate_dirs": False, "estimator_type": op["est"][0]}
         ref = defining("directional", [f, edges, pos, dirs], kw)
